@@ -26,7 +26,7 @@ fn is_plain(s: SubDeviceState) -> bool {
 //@ unwind: 6
 //@ functions: TxRxResponse::group_state; TxRxResponse::group_in_single_state; TxRxResponse::is_in_state; TxRxResponse::all_op
 //@ bounds: state lists of length 0..=3, every entry any value of the 4-bit AL state field (16 values incl. Bootstrap, None and undefined codes); requested state any of the four unambiguous states
-//@ assumes: exactness (iff) is asserted for lists made of INIT/PRE-OP/SAFE-OP/OP; for lists containing Bootstrap, the 0 code or undefined codes only soundness is asserted (documented INIT|PRE-OP vs BOOT ambiguity of the bitmap summary)
+//@ assumes: exactness (iff) is asserted for lists made of INIT/PRE-OP/SAFE-OP/OP; for lists containing Bootstrap or undefined codes soundness is asserted (a summary never claims the requested state while any member reported something else); the code 0 (SubDeviceState::None) is invisible to the bitmap summaries by construction and excluded
 #[kani::proof]
 #[kani::unwind(6)]
 pub fn c10_summaries() {
@@ -59,7 +59,9 @@ pub fn c10_summaries() {
         all_want &= states[i] == want;
         all_op &= states[i] == SubDeviceState::Op;
         all_same &= states[i] == states[0];
-        any_other_plain_than_want |= is_plain(states[i]) && states[i] != want;
+        // any reported state other than the requested one counts, defined or not; only the code 0
+        // ("no state known") is invisible to the bitmap summaries by construction and is excluded
+        any_other_plain_than_want |= states[i] != want && states[i] != SubDeviceState::None;
         i += 1;
     }
     kani::cover!(resp.all_op());
